@@ -53,7 +53,10 @@ typedef BDDTopDownTreeAut AutT;
 #if OP == 2 && !SEED && !SHARE
 #error UnionDisjointStates needs disjoint state numbers: SEED=1
 #endif
-enum { NALL = NA + NB > 0 ? (SHARE && BINARY ? NA : NA + NB) : 1, NR = OP == 3 ? (NA * NB > NALL ? NA * NB : NALL) : NALL };
+#if SHARE && !SEED
+#error SHARE=1 needs SEED=1
+#endif
+enum { NALL = (BINARY && !SHARE) ? NA + NB : NA, NR = OP == 3 ? (NA * NB > NALL ? NA * NB : NALL) : NALL };
 
 extern "C" void harness(void)
 {
@@ -150,14 +153,11 @@ extern "C" void harness(void)
 #if BINARY
     BA::Dump<NALL> dB = BA::dump<NALL>(b, SEED ? full : DICT_B);
     // B's states are called q(NA+s) unless the operands share their states
-    BA::Aut<NALL> Bx; Bx.clear();
-    { BA::Aut<NA + NB> both = BA::disjointUnion(A, B); for (unsigned s = 0; s < NA; ++s) both.fin[s] = false;
 #if SHARE
-      for (unsigned i = 0; i < BA::Aut<NALL>::NR; ++i) Bx.pres[i] = B.pres[i]; for (unsigned s = 0; s < NA; ++s) Bx.fin[s] = B.fin[s]; (void)both;
+    const BA::Aut<NA>& Bx = B;
 #else
-      Bx = both;
+    BA::Aut<NA> none; none.clear(); BA::Aut<NA + NB> Bx = BA::disjointUnion(none, B);
 #endif
-    }
     CHECK(dB.ok, 12); CHECK(BA::sameLang(Bx, dB.aut), 13);
 #endif
 #if SHARE && (OP == 4 || OP == 5)
